@@ -334,4 +334,11 @@ theorem sim_run {c0 c1 : Cfg S X} (hrun : CRun c0 c1) (hinv : AInv c0) {a0 : ACf
       obtain ⟨h1, a2, hst2, h2⟩ := sim_finish hinv1 hi hcur hrest hs1
       exact ⟨h1, a2, ARun.step har hst2, h2⟩
 
+/-- example data for the non-vacuity check in Props/C07 -/
+def exInc : Call Nat Nat := ⟨0, true, [fun p => (p.1, p.1), fun p => (p.2 + 1, p.2)]⟩
+def exRd : Call Nat Nat := ⟨1, false, [fun p => (p.1, p.1)]⟩
+def exCfg : Cfg Nat Nat :=
+  ⟨2, fun _ => 5, fun _ => 5, fun i => if i = 0 then ⟨[exInc], none, 0⟩ else ⟨[exRd], none, 0⟩⟩
+
+
 end IwModel.Atomic
